@@ -487,6 +487,25 @@ fn parse_mem(text: &[u8]) -> Vec<Value> {
     }
 }
 
+/// The same input through `Parser::records_only()` (an $INCLUDE becomes an error there).
+fn parse_mem_records_only(text: &[u8]) -> Vec<Value> {
+    let t = text.to_vec();
+    match catch_unwind(move || {
+        let mut v = Vec::new();
+        for item in Parser::new(Cursor::new(t)).records_only() {
+            match item {
+                Ok(line) => v.push(jrec(line.number, &line.record)),
+                Err(_) => v.push(json!({"k": "err"})),
+            }
+            if v.len() > 20000 { break; }
+        }
+        v
+    }) {
+        Ok(v) => v,
+        Err(_) => vec![json!({"k": "panic"})],
+    }
+}
+
 // ---------------------------------------------------------------- C24
 
 fn fuzz(r: &mut StdRng, n: usize, out: &mut Out) {
@@ -530,6 +549,15 @@ fn fuzz(r: &mut StdRng, n: usize, out: &mut Out) {
                 t.push(b'\n');
                 t
             }
+            8 => {
+                // a valid file with a (syntactically fine) $INCLUDE line somewhere in the middle
+                let t = seeds.choose(r).unwrap().clone();
+                let cut = t.iter().enumerate().filter(|(_, c)| **c == b'\n').map(|(i, _)| i + 1).nth(r.gen_range(0..6)).unwrap_or(0);
+                let mut u = t[..cut].to_vec();
+                u.extend_from_slice(if r.gen_bool(0.5) { b"$INCLUDE other.zone\n" } else { b"$INCLUDE sub/other.zone sub.example.\n" });
+                u.extend_from_slice(&t[cut..]);
+                u
+            }
             _ => {
                 let mut t = seeds.choose(r).unwrap().clone();
                 for _ in 0..r.gen_range(1..4) {
@@ -548,9 +576,10 @@ fn fuzz(r: &mut StdRng, n: usize, out: &mut Out) {
         };
         let t0 = std::time::Instant::now();
         let items = parse_mem(&text);
+        let items_ro = parse_mem_records_only(&text);
         let ms = t0.elapsed().as_millis() as u64;
         // records are logged without line numbers here; "slow" marks a parse that took implausibly long for its size
-        out.emit(json!({"ev": "Fuzz", "len": text.len(), "items": items, "slow": ms > 20000, "text": String::from_utf8_lossy(&text[..text.len().min(300)])}));
+        out.emit(json!({"ev": "Fuzz", "len": text.len(), "items": items, "items_ro": items_ro, "slow": ms > 20000, "text": String::from_utf8_lossy(&text[..text.len().min(300)])}));
     }
 }
 
